@@ -514,7 +514,19 @@ fn dec_arp(b: &[u8]) -> Dec<'_> {
             t[n - 1] ^= 1;
             ArpPacket::new(h.hw_addr_type, h.proto_addr_type, h.operation, h.sender_hw_addr(), h.sender_protocol_addr(), h.target_hw_addr(), &t).ok()
         };
-        let bad2 = NetHeaders::Arp(h.clone()).header_len() != h.to_bytes().len() || h.packet_len() != h.to_bytes().len();
+        // a packet that held the longest addresses before, and a failed setter call on the way: the same packet
+        let mut st = h.clone();
+        let long = [0xeeu8; 255];
+        let (shw, thw) = (h.sender_hw_addr().to_vec(), h.target_hw_addr().to_vec());
+        let (spr, tpr) = (h.sender_protocol_addr().to_vec(), h.target_protocol_addr().to_vec());
+        let stale_bad = st.set_hw_addrs(&long, &long).is_err()
+            || st.set_protocol_addrs(&long, &long).is_err()
+            || st.set_hw_addrs(&long, &long[..3]).is_ok()
+            || st.set_hw_addrs(&shw, &thw).is_err()
+            || st.set_protocol_addrs(&spr, &tpr).is_err()
+            || st != h
+            || st.to_bytes()[..] != h.to_bytes()[..];
+        let bad2 = stale_bad || NetHeaders::Arp(h.clone()).header_len() != h.to_bytes().len() || h.packet_len() != h.to_bytes().len();
         (format!("{}{}{}", show_arp(&h), if eq_laws_bad(&h, d) { "!accessor-mismatch" } else { "" }, if bad2 { "!routes-differ(net_headers)" } else { "" }), r)
     })
 }
